@@ -43,20 +43,22 @@ Proof.
   destruct (inv_cget g k j I E) as [Hj Hk].
   destruct (cn_remove g (c0 g j) k) as [g1|] eqn:R1; cbn [bind] in H; [|discriminate].
   apply cn_remove_ok in R1. subst g1.
-  match type of H with context [cn_remove ?G ?i ?kk] => destruct (cn_remove G i kk) as [g2|] eqn:R2 end; cbn [bind] in H; [|discriminate].
-  apply cn_remove_ok in R2. subst g2. revert H. gs. intro H.
-  destruct (mem j (clist g)) eqn:M; [|discriminate]. inversion H; subst g'; clear H M.
   set (a := c0 g j) in *. set (b := c1 g j) in *.
-  assert (C : forall i x, In x (fget [] (fset (fset (bcn g) a (set_del (cn g a) k)) b
-                                  (set_del (fget [] (fset (bcn g) a (set_del (cn g a) k)) b) k)) i)
-                      <-> In x (cn g i) /\ ((i = a \/ i = b) -> x <> k)).
-  { intros i x. rewrite fget_fset. destruct (Pos.eqb_spec i b) as [->|Nb].
-    - rewrite In_set_del, fget_fset. destruct (Pos.eqb_spec b a) as [->|Na].
-      + rewrite In_set_del. unfold cn. intuition.
-      + fold (cn g b). intuition.
-    - rewrite fget_fset. destruct (Pos.eqb_spec i a) as [->|Na].
-      + rewrite In_set_del. intuition.
-      + fold (cn g i). intuition. }
+  (* one removal per distinct end: the records after the loop *)
+  assert (V : exists v, (if Pos.eqb b a then Ok (set_bcn g (fset (bcn g) a (set_del (cn g a) k)))
+                         else cn_remove (set_bcn g (fset (bcn g) a (set_del (cn g a) k))) b k) = Ok (set_bcn g v) /\
+                        forall i x, In x (fget [] v i) <-> In x (cn g i) /\ ((i = a \/ i = b) -> x <> k)).
+  { destruct (Pos.eqb_spec b a) as [Eba|Nba].
+    - exists (fset (bcn g) a (set_del (cn g a) k)). split; [reflexivity|]. intros i x. rewrite fget_fset.
+      destruct (Pos.eqb_spec i a) as [->|Na]; [rewrite In_set_del; rewrite Eba; intuition|fold (cn g i); rewrite Eba; intuition].
+    - match type of H with context [cn_remove ?G b k] => destruct (cn_remove G b k) as [g2|] eqn:R2 end.
+      2:{ destruct (Pos.eqb_spec b a); [contradiction|]. discriminate. }
+      apply cn_remove_ok in R2. subst g2. eexists. split; [gs; reflexivity|]. intros i x. gs.
+      rewrite fget_fset. destruct (Pos.eqb_spec i b) as [->|Nb].
+      + rewrite In_set_del, fget_fset. destruct (Pos.eqb_spec b a); [contradiction|]. fold (cn g b). intuition.
+      + rewrite fget_fset. destruct (Pos.eqb_spec i a) as [->|Na]; [rewrite In_set_del; intuition|fold (cn g i); intuition]. }
+  destruct V as [v [Ev C]]. rewrite Ev in H. cbn [bind] in H. revert H. gs. intro H.
+  destruct (mem j (clist g)) eqn:M; [|discriminate]. inversion H; subst g'; clear H M Ev.
   unfold cget in E.
   split; [|split].
   - constructor; try apply I; gs.
